@@ -241,6 +241,8 @@ def args_of(o, starts):
     if o['maxredir'] is not None:
         a += ['--max-redirect', str(o['maxredir'])]
     a += ['--concurrent', str(o['conc']), '--no-robots']
+    if o.get('convert_links'):
+        a.append('--convert-links')       # a second pipeline stage after the crawl, with its own check-outs in the same database
     return a
 
 
@@ -275,7 +277,8 @@ def gen_case(r, hosts=None, conc=None, errors=False, n_pages=None, simple=False,
 
 def spec_of(case, repo, trace_path):
     return {'args': args_of(case['opts'], case['start_spellings']), 'site': site_spec(case['meta']), 'repo': repo,
-            'pre_hooks': [HOOK], 'engine_trace_path': trace_path, 'engine_concurrency': case['opts']['conc']}
+            'pre_hooks': [HOOK], 'engine_trace_path': trace_path, 'engine_concurrency': case['opts']['conc'],
+            'db_uri': bool(case['opts'].get('db_uri'))}
 
 
 # --------------------------------------------------------------------------
